@@ -254,6 +254,16 @@ func genHistory(r *rand.Rand, w *World, nblocks int, txPerBlock int) *History {
 	props := []string{}
 	domains := []string{}
 	reqs := []string{}
+	domOwner := map[string]Key{} // the creator of each domain (the owner unless it has changed hands since)
+	type bidConvRec struct {
+		id            string
+		owner, bidder Key
+		bid, counter  int64 // the amounts the generator believes active (units of 10^12), counter 0 = none
+		dlh           int64 // the height after which it is past its deadline (0 = far)
+		closed        bool
+	}
+	convs := []*bidConvRec{}
+	bidDomains := []string{} // domains bought for long enough to be bid for
 	user := func() Key {
 		if len(w.Poor) > 0 && r.Intn(8) == 0 {
 			return w.Poor[r.Intn(len(w.Poor))]
@@ -285,7 +295,117 @@ func genHistory(r *rand.Rand, w *World, nblocks int, txPerBlock int) *History {
 			if lowGas {
 				GAS = 100
 			}
-			switch k := r.Intn(39); k {
+			switch k := r.Intn(48); k {
+			case 39, 40, 41: // bid: a new conversation (ONS domain or the example asset)
+				if k == 39 && (len(bidDomains) < 2 || r.Intn(3) == 0) {
+					// a domain to bid for: bought by a funded account for 20000 blocks
+					name := fmt.Sprintf("bd%d.ol", len(bidDomains))
+					du := w.Users[r.Intn(len(w.Users))]
+					domOwner[name] = du
+					bidDomains = append(bidDomains, name)
+					GAS = 1000000
+					tx, d = txDomainCreate(du, name, oltAmt("1002000000000000000000"), memo()), "domain create "+name
+					break
+				}
+				bidder := user()
+				owner, asset, typ := user(), fmt.Sprintf("thing%d", r.Intn(3)), bidExample
+				if len(bidDomains) > 0 && r.Intn(4) != 0 {
+					asset, typ = bidDomains[r.Intn(len(bidDomains))], bidOns
+					if len(domains) > 0 && r.Intn(8) == 0 {
+						asset = domains[r.Intn(len(domains))] // any domain: possibly expired, on sale or never created
+					}
+					owner = domOwner[asset]
+					if r.Intn(8) == 0 {
+						owner = user() // not the owner: refused
+					}
+				}
+				bid := []int64{1, 7, 1000, 250000, 3000000}[r.Intn(5)]
+				a := fmt.Sprintf("%d000000000000", bid)
+				switch r.Intn(10) {
+				case 0:
+					a = "9000000000000000000000000000" // more than anybody has
+				case 1:
+					a = "0"
+				case 2:
+					a = "-" + a // accepted by Validate
+				}
+				dl, dlh := bidFar, int64(0)
+				switch r.Intn(12) {
+				case 0, 1, 2, 3: // expires a few blocks later through the block hooks
+					dlh = height + 1 + int64(r.Intn(6))
+					dl = bidBlockTime(dlh) + 1
+				case 4:
+					dl = bidBlockTime(height) - 1 // already past: refused
+				}
+				tx, d = txBidCreate(bidder, owner.Addr, asset, typ, oltAmt(a), dl, memo()), "bidcreate "+asset+" "+a
+				convs = append(convs, &bidConvRec{id: bidConvID(owner.Addr, asset, bidder.Addr, height), owner: owner, bidder: bidder, bid: bid, dlh: dlh})
+			case 42, 43, 44, 45, 46, 47:
+				if len(convs) == 0 {
+					continue
+				}
+				// mostly a conversation believed to be open, and the step its state allows
+				c := convs[r.Intn(len(convs))]
+				for try := 0; try < 6 && (c.closed || (c.dlh != 0 && c.dlh < height)); try++ {
+					c = convs[r.Intn(len(convs))]
+				}
+				if (c.closed || (c.dlh != 0 && c.dlh < height)) && r.Intn(3) != 0 {
+					continue // nothing believed open: only now and then a transaction about a closed conversation
+				}
+				owner, bidder := c.owner, c.bidder
+				if r.Intn(10) == 0 {
+					owner, bidder = user(), user() // somebody else: refused
+				}
+				step := k
+				if r.Intn(4) != 0 {
+					if c.counter == 0 {
+						step = []int{42, 42, 45, 46}[r.Intn(4)]
+					} else {
+						step = []int{43, 43, 44, 44, 46}[r.Intn(5)]
+					}
+					if c.dlh != 0 && r.Intn(3) == 0 {
+						continue // left to expire
+					}
+				}
+				dec := []int{bidAccept, bidAccept, bidAccept, bidReject, bidReject, 0, 3}[r.Intn(7)]
+				switch step {
+				case 42:
+					cv := c.bid*2 + 1 + int64(r.Intn(5))
+					if r.Intn(6) == 0 {
+						cv = c.bid - int64(r.Intn(2)) // not above the bid: refused
+					}
+					a := fmt.Sprintf("%d000000000000", cv)
+					if r.Intn(12) == 0 {
+						a = "-" + a
+					}
+					tx, d = txBidCounter(owner, c.id, oltAmt(a), memo()), "bidcounter "+a
+					c.counter = cv
+				case 43:
+					nv := c.bid + 1 + int64(r.Intn(3))
+					if c.counter > 0 && nv >= c.counter {
+						nv = c.counter - 1
+					}
+					if r.Intn(6) == 0 {
+						nv = c.counter + int64(r.Intn(2)) // not below the counter offer: refused
+					}
+					a := fmt.Sprintf("%d000000000000", nv)
+					if r.Intn(12) == 0 {
+						a = "-" + a
+					}
+					tx, d = txBidOffer(bidder, c.id, oltAmt(a), memo()), "bidoffer "+a
+					c.bid, c.counter = nv, 0
+				case 44:
+					tx, d = txBidBidderDecision(bidder, c.id, dec, memo()), fmt.Sprintf("bidbidderdecision %d", dec)
+					c.closed = c.closed || dec == bidAccept || dec == bidReject
+				case 45:
+					tx, d = txBidOwnerDecision(owner, c.id, dec, memo()), fmt.Sprintf("bidownerdecision %d", dec)
+					c.closed = c.closed || dec == bidAccept || dec == bidReject
+				case 46:
+					tx, d = txBidCancel(bidder, c.id, memo()), "bidcancel"
+					c.closed = true
+				case 47:
+					tx, d = txBidExpire(user(), c.id, memo()), "bidexpire public"
+					c.closed = true
+				}
 			case 35, 36: // OLVM plain transfer with the expected nonce
 				if len(w.Eth) == 0 {
 					continue
@@ -390,7 +510,9 @@ func genHistory(r *rand.Rand, w *World, nblocks int, txPerBlock int) *History {
 				name := fmt.Sprintf("n%d.ol", len(domains))
 				domains = append(domains, name)
 				price := []string{"1000000000000000000001", "1100000000000000000000", "1002000000000000000000", "5"}[r.Intn(4)]
-				tx, d = txDomainCreate(user(), name, oltAmt(price), memo()), "domain create "+name
+				du := user()
+				domOwner[name] = du
+				tx, d = txDomainCreate(du, name, oltAmt(price), memo()), "domain create "+name
 			case 26:
 				if len(domains) == 0 {
 					continue
